@@ -695,6 +695,33 @@ fn new_session_quiet(cfg: &Cfg) -> Session {
 // ---------------------------------------------------------------------------------------
 pub fn regress(seed: u64, n: usize, out: &mut Out) {
     let mut rng = Rng::new(seed);
+    // corpus first: the witness of the Lean theorem C17_window_bound_J_false, replayed on the real code
+    {
+        let cfg = Cfg::Prob { cap: 8, modulus: 1 };
+        let lim = Lim { b: 1, c: 1, p: 1 };
+        let mut sess = new_session(&cfg, out);
+        let mut steps = vec![];
+        for (i, (key, t)) in [("k", 10), ("o1", 12), ("k", 10), ("o2", 12), ("k", 10), ("o3", 12), ("k", 10)].iter().enumerate() {
+            let _ = i;
+            let rq = Rq { key: key.to_string(), lim, q: 1, now: *t as i64 * 1_000_000_000 };
+            steps.push(call_emit(&mut sess, &rq, out));
+        }
+        out.bump("corpus_cases");
+        if let Some((key, lim, t1, t2, adm, j)) = c17_window(&steps) {
+            let mut ns = Session::new(&Cfg::never_sweeps());
+            let re: Vec<Step> = steps.iter().map(|s| ns.call(&s.rq)).collect();
+            let what = format!(
+                "key {:?} limits {:?}: {} tokens admitted with timestamps in [{},{}], bound burst + (window+J)/E = {} + ({}+{})/{} (witness of Lean theorem C17_window_bound_J_false)",
+                key, lim, adm, t1, t2, lim.b, t2 as i128 - t1 as i128, j, lim.e()
+            );
+            if c17_window(&re).is_none() {
+                out.bump("known_c17_sweep_regression");
+                out.viol.push(("KNOWN-C17-sweep-regression".into(), what, replay_lines(&cfg, &steps, steps.len() - 1)));
+            } else {
+                out.violation("C17", what, replay_lines(&cfg, &steps, steps.len() - 1));
+            }
+        }
+    }
     for _ in 0..n {
         let cfg = if rng.chance(1, 2) {
             // aggressive cleanup so forgetting interacts with regression
